@@ -55,9 +55,25 @@ def vocabulary(quick):
     v += TEXT_STYLE + TEXT_OL + STROKE + LINE + ARROW + SHADOW
     for f in PATTERN_FAMILIES:
         v.append(f)
-        for n in (range(1, 101) if not quick else [1, 2, 3, 5, 9, 10, 11, 25, 50, 99, 100]):
+        for n in (range(1, 101) if not quick else [1, 2, 3, 5, 7, 9, 10, 11, 20, 25, 33, 50, 64, 75, 99, 100]):
             v.append("%s-%d" % (f, n))
     return v
+
+
+def lookalikes(quick):
+    """class names that are NOT in the documented vocabulary but sit next to it: implemented-but-undocumented pattern
+    families (d-grid-h, d-grid-v), names that share a prefix or a numeric suffix with a reserved family, out-of-range sizes.
+    No rule is owed for them; the closure / uniqueness / minimality clauses apply to whatever is emitted for them."""
+    v = ["d-grid-h", "d-grid-v", "d-grid-0", "d-grid-101", "d-grid-007", "d-grid-", "d-grid--5", "d-grid-5-5", "d-hatch-0", "d-stipple-1000",
+         "d-hatched", "d-grid5", "d-crosshatch-h-5", "d-stipple-x-3", "d-grid-foo-7", "d-text-biggerer", "d-fill-", "d-fill-notacolour",
+         "d-text-ol-none", "d-softshadow-2", "d-arrow-2", "d-flow-fastest", "mine", "d-notreserved-xyz", "D-RED", "d-Red"]
+    for f in ("d-grid-h", "d-grid-v"):
+        for n in ([1, 3, 5, 10, 50, 100, 101] if quick else list(range(0, 102))):
+            v.append("%s-%d" % (f, n))
+    return v
+
+
+LOOKALIKES = lookalikes(False)
 
 
 def sweep_doc(cls):
@@ -259,8 +275,8 @@ def class_family(c):
 def random_doc(rng, vocab):
     n = rng.randint(2, 12)
     classes = [rng.choice(vocab) for _ in range(n)]
-    if rng.random() < 0.3:
-        classes.append(rng.choice(["d-grid-101", "d-hatch-0", "d-stipple-1000", "mine", "d-notreserved-xyz", "d-grid-007"]))
+    if rng.random() < 0.4:
+        classes += rng.sample(LOOKALIKES, rng.randint(1, 3))
     lines = []
     shapes = ['<rect xy="%d 0" wh="8" class="%s"%s/>', '<circle cxy="%d 20" r="4" class="%s"%s/>', '<line xy1="%d 30" xy2="%d 38" class="%s"/>',
               '<polyline points="%d 40 5 45" class="%s"/>', '<text xy="%d 50" class="%s" text="w"/>', '<ellipse cxy="%d 60" rxy="4 2" class="%s"%s/>',
@@ -329,9 +345,15 @@ def run_shard(ctx):
             if k in (17, 900):
                 acc.sample(dict(input=sweep_doc(cls), theme=theme))
     acc.count("vocabulary-size", len(vocab) if ctx.shard == 0 else 0)
+    for theme in THEMES:
+        for cls in lookalikes(ctx.quick()):
+            k += 1
+            if not ctx.mine(k) or ctx.out_of_time():
+                continue
+            check_case(ctx, dict(input=sweep_doc(cls).encode(), cfg=dict(theme=theme), classes=[cls], root=True, feats=["lookalike", "theme." + theme, "sweep"]))
     rng = ctx.rng("subsets")
     full = vocabulary(False)
-    n = 1200 if ctx.quick() else 60000
+    n = 6000 if ctx.quick() else 150000
     for j in range(n):
         if ctx.out_of_time():
             acc.notes.append("time budget reached after %d subset docs" % j)
